@@ -212,6 +212,17 @@ structure Env where
   clock : Nat → Nat
   cand : Nat → Nat → Nat
 
+/-- A linearization event (ghost): call `idx` of thread `tid`, what it reported, and its linearization index
+(a commit-log position: committed calls ARE the log entry at that position, refused calls are linearized
+just before it). -/
+structure Ev (M : Type) where
+  tid : Nat
+  idx : Nat
+  op : Op M
+  res : Res M
+  lin : Nat
+  committed : Bool
+
 structure Config (M : Type) where
   store : Store M
   nextRef : Nat
@@ -223,6 +234,8 @@ structure Config (M : Type) where
   tick : Nat
   /-- `rng.Read` calls made so far -/
   rng : Nat
+  /-- ghost: the refused calls finished so far, by linearization index, in the order they finished -/
+  refusedAt : Nat → List (Ev M) := fun _ => []
 
 def replay (s₀ : SStore M) (log : List (Entry M)) : SStore M :=
   log.foldl (fun s e => (specStep e.op s).2) s₀
@@ -327,8 +340,18 @@ def stepCore (fixed : Bool) (env : Env) (c : Config M) (t : Nat) : Config M :=
   | .uCommit u rd created new => stepCommit fixed env c t th u rd created new
   | .dTry d seen attempt => stepDel c t th d seen attempt
 
+/-- ghost bookkeeping: if the step finished a call that the specification itself refuses, file its event
+under its linearization index -/
+def noteRefused (c c' : Config M) (t : Nat) : Nat → List (Ev M) :=
+  match (c'.threads t).done.drop (c.threads t).done.length with
+  | [r] =>
+    if r.kind = .refused then
+      setAt c.refusedAt r.lin (c.refusedAt r.lin ++ [⟨t, (c.threads t).done.length, r.op, r.res, r.lin, false⟩])
+    else c.refusedAt
+  | _ => c.refusedAt
+
 def step (fixed : Bool) (env : Env) (c : Config M) (t : Nat) : Config M :=
-  { stepCore fixed env c t with tick := c.tick + 1 }
+  { stepCore fixed env c t with tick := c.tick + 1, refusedAt := noteRefused c (stepCore fixed env c t) t }
 
 def run (fixed : Bool) (env : Env) (c : Config M) (sched : List Nat) : Config M :=
   sched.foldl (step fixed env) c
@@ -341,6 +364,7 @@ def initCfg (s₀ : SStore M) (progs : Nat → List (Op M)) : Config M :=
     threads := fun t => ⟨progs t, .idle, [], 0, 0⟩
     stamp := fun _ => 0
     tick := 1
-    rng := 0 }
+    rng := 0
+    refusedAt := fun _ => [] }
 
 end ScVerif.C02
